@@ -126,9 +126,17 @@ def run(ck, ix, tier):
         # the branch that hashes the bare magnitude (so that q == 3 implies hash(q) == hash(3)) must be taken exactly when
         # __eq__ compares with bare numbers, i.e. for every *dimensionless* quantity (radian, count, ... included), and
         # every other quantity must hash what __eq__ compares (dimensionality, not the units)
+        from .. import shape
+        dimless = lambda a: norm(a) in (f"{b}.dimensionless", "self.dimensionless")
         for tst in [n for n in cfg.nodes if n.kind == "test"]:
-            ck.check(norm(tst.ast) in (f"{b}.dimensionless", "self.dimensionless"), "G-PROV", "PlainQuantity.__hash__|dimensionless-shortcut-on-base-form", fi.loc(tst.ast), "bare-magnitude hash for every dimensionless quantity",
+            pos = [norm(a) for a, _ in shape.atoms(tst.ast)]
+            ck.check(all(p in (f"{b}.dimensionless", "self.dimensionless") for p in pos), "G-PROV", "PlainQuantity.__hash__|dimensionless-shortcut-on-base-form", fi.loc(tst.ast), "bare-magnitude hash for every dimensionless quantity",
                      f"`{norm(tst.ast)}` selects the hash granularity: the bare-magnitude hash must be taken exactly for dimensionless quantities (the predicate __eq__ uses for bare numbers); 1 radian == 1 but would hash differently")
+        for h in [c for c in walk_local(fi.node) if isinstance(c, ast.Call) and isinstance(c.func, ast.Name) and c.func.id == "hash"]:
+            bare = not isinstance(h.args[0], ast.Tuple)
+            ck.check(shape.holds_at(h, fi.node, dimless, bare), "G-PROV", f"PlainQuantity.__hash__|{'bare' if bare else 'tuple'}-hash-on-the-right-side", fi.loc(h),
+                     "bare magnitude hashed for dimensionless quantities, (class, magnitude, dimensionality) otherwise",
+                     f"`{norm(h)}` is computed on the wrong side of the dimensionless test")
     fh = ix.func(PU, "PlainUnit.__hash__")
     ck.check("self._units.__hash__()" in norm(fh.node) or "hash(self._units)" in norm(fh.node), "G-PROV", "PlainUnit.__hash__|container-hash", fh.loc(), "unit hash = container hash", "PlainUnit.__hash__ is no longer the container hash")
 
@@ -140,10 +148,29 @@ def run(ck, ix, tier):
     fe = ix.func("pint.compat", "eq")
     ck.analysed(fe)
     src = norm(fe.node)
-    ck.check("out = lhs == rhs" in src and "return out.all()" in src, "G-PROV", "compat.eq|elementwise-then-all", fe.loc(), "== then all() when check_all", "compat.eq no longer reduces with all()")
+    cm = ix.module("pint.compat")
+
+    def reductions(fn):
+        """names of the array reductions (.all/.any) applied in fn or in the same-module helpers it calls"""
+        out, seen, todo = [], set(), [fn]
+        while todo:
+            g = todo.pop()
+            if g.name in seen:
+                continue
+            seen.add(g.name)
+            for c in walk_local(g.node):
+                if isinstance(c, ast.Call) and isinstance(c.func, ast.Attribute) and c.func.attr in ("all", "any") and not c.args:
+                    out.append(c.func.attr)
+                if isinstance(c, ast.Call) and isinstance(c.func, ast.Name) and c.func.id in cm.functions and c.func.id.startswith("_"):
+                    todo.append(cm.functions[c.func.id])
+        return out
+    red = reductions(fe)
+    has_eq = any(isinstance(c, ast.Compare) and isinstance(c.ops[0], ast.Eq) and norm(c) in ("lhs == rhs", "rhs == lhs") for c in walk_local(fe.node))
+    ck.check(has_eq and "all" in red and "any" not in red, "G-PROV", "compat.eq|elementwise-then-all", fe.loc(), "== then all() when check_all", f"compat.eq must compare with == and reduce with all() under check_all (reductions found: {red})")
     fz = ix.func("pint.compat", "zero_or_nan")
-    src = norm(fz.node)
-    ck.check("eq(obj, 0, False) + isnan(obj, False)" in src and "return out.all()" in src, "G-PROV", "compat.zero_or_nan|zero-or-nan-all", fz.loc(), "(== 0) | isnan, reduced with all()", "compat.zero_or_nan is no longer (obj == 0) + isnan(obj) reduced with all()")
+    red = reductions(fz)
+    summ = any(isinstance(b2, ast.BinOp) and isinstance(b2.op, (ast.Add, ast.BitOr)) and sorted([norm(b2.left), norm(b2.right)]) == ["eq(obj, 0, False)", "isnan(obj, False)"] for b2 in walk_local(fz.node))
+    ck.check(summ and "all" in red and "any" not in red, "G-PROV", "compat.zero_or_nan|zero-or-nan-all", fz.loc(), "(== 0) | isnan, reduced with all()", f"compat.zero_or_nan is no longer (obj == 0) + isnan(obj) reduced with all() (reductions found: {red})")
     from .. import memo as _memo
     _memo.rule_quantity_dimensionality_memo(ck, ix)  # __eq__/compare read Quantity.dimensionality
     from .C16 import inplace_primitives_rule
@@ -159,13 +186,17 @@ def eq_zero_rule(ck, ix):
     t0 = Tagger(ck, fi, "G-TAG")
     t0.run()
     # the both-zero shortcut must carry both multiplicativity conjuncts (D4) - explicit rule in addition to G-TAG
+    from .. import shape
     for t in [n for n in cfg.nodes if n.kind == "test" and "eq(self._magnitude, 0, True)" in norm(n.ast)]:
-        s = norm(t.ast)
+        s = shape.rnorm(t.ast, fi.node)
         ck.check("self._is_multiplicative" in s and "other._is_multiplicative" in s, "G-TAG", "PlainQuantity.__eq__|both-zero-shortcut-requires-multiplicative", fi.loc(t.ast),
                  "the both-zero shortcut only applies when both quantities are multiplicative",
                  "the both-zero shortcut answers by dimensionality although an operand may carry an offset/log unit (0 degC == 0 kelvin would be True)")
         succ = [v for (v, lab) in cfg.succ[t.id] if lab == "t"]
         for sx in succ:
             r = cfg.nodes[sx].ast
-            ck.check(isinstance(r, ast.Return) and "self.dimensionality == other.dimensionality" in norm(r), "G-PROV", "PlainQuantity.__eq__|both-zero-answer-is-dimensionality-equality", fi.loc(r),
+            while not isinstance(r, ast.Return) and isinstance(r, ast.Assign) and len(cfg.succ[sx]) == 1:   # a hoisted temporary before the return
+                sx = cfg.succ[sx][0][0]
+                r = cfg.nodes[sx].ast
+            ck.check(isinstance(r, ast.Return) and "self.dimensionality == other.dimensionality" in shape.rnorm(r.value, fi.node), "G-PROV", "PlainQuantity.__eq__|both-zero-answer-is-dimensionality-equality", fi.loc(r),
                      "two zeros are equal iff the dimensionalities are", f"`{norm(r)}` is not the dimensionality comparison")
